@@ -84,15 +84,31 @@ class Template:
         self._parse(open(path).read())
 
     def _parse(self, text):
-        lines = []
-        for ln in text.split("\n"):
-            if ln.strip().startswith("//@include "):
-                inc = os.path.join(os.path.dirname(self.path), ln.strip().split()[1])
-                lines.append("// ---- begin include %s" % ln.strip().split()[1])
-                lines += open(inc).read().rstrip("\n").split("\n")
-                lines.append("// ---- end include")
-            else:
-                lines.append(ln)
+        base = os.path.dirname(self.path)
+
+        def expand(txt, depth=0):
+            out = []
+            for ln in txt.split("\n"):
+                if ln.strip().startswith("//@include ") and depth < 5:
+                    rel = ln.strip().split()[1]
+                    out.append("// ---- begin include %s" % rel)
+                    out += expand(open(os.path.join(base, rel)).read().rstrip("\n"), depth + 1)
+                    out.append("// ---- end include %s" % rel)
+                else:
+                    out.append(ln)
+            return out
+        lines = expand(text)
+        defines = set(re.findall(r"^//@define (\w+)\s*$", "\n".join(lines), flags=re.M))
+        kept = []
+        for ln in lines:
+            m = re.search(r"\s*//@if (!?)(\w+)\s*$", ln)
+            if m:
+                want = (m.group(2) in defines) != bool(m.group(1))
+                if want:
+                    kept.append(ln[:m.start()])
+                continue
+            kept.append(ln)
+        lines = kept
         cur = []
         cur_start = 1
         i = 0
@@ -185,7 +201,10 @@ def apply_rules(text, item, tmpl, fired):
     return text
 
 
-def merge(t_toks, r_toks):
+CONTINUES = {"else", ".", "?", ";", ",", ")", "]", "}", "=", "as", "&&", "||", "+", "-", "*", "/", ":", ">", "<"}
+
+
+def merge(t_toks, r_toks, flip=False):
     """Token merge. t_toks: template tokens (ghost flagged); r_toks: repo tokens.
     Returns (out_tokens, drift) where drift lists the differing exec spans."""
     idx = [k for k, t in enumerate(t_toks) if not t.ghost]
@@ -212,10 +231,19 @@ def merge(t_toks, r_toks):
                 out += ghost_before(i)
                 out.append(t_toks[idx[i]])
         else:
-            out += ghost_before(i1)
+            # Where do inserted tokens go relative to a ghost run sitting at the same place? Ghost sticks to
+            # the preceding statement, unless the inserted text continues that statement (`else …`, `.method()`):
+            # then the ghost run follows the insertion. `flip` inverts the choice (second attempt of the driver).
+            ins_first = tag == "insert" and j1 < len(r_toks) and r_toks[j1].text in CONTINUES
+            if flip and tag == "insert":
+                ins_first = not ins_first
+            if not ins_first:
+                out += ghost_before(i1)
             for t in r_toks[j1:j2]:
                 t.src = "R"
                 out.append(t)
+            if ins_first:
+                out += ghost_before(i1)
             # ghost runs strictly inside a deleted / replaced span lose their context
             # (closure specs, proof blocks about deleted statements): they are dropped
             dropped = []
@@ -247,7 +275,7 @@ class Assembled:
         return None
 
 
-def assemble(tmpl, repo=None):
+def assemble(tmpl, repo=None, flip=False):
     repo = repo or REPO
     asm = Assembled()
     asm.template = tmpl
@@ -294,7 +322,7 @@ def assemble(tmpl, repo=None):
             raise UnitError("item %s: cannot cut %s %s from %s: %s" % (item.id, item.kind, item.name, item.src, e))
         rtext = apply_rules(rtext, item, tmpl, asm.fired)
         r_toks, _ = lex(rtext, l0)
-        out, drift = merge(t_toks, r_toks)
+        out, drift = merge(t_toks, r_toks, flip)
         # rebuild text and the line table
         text = untok(out, t_tail)
         if not text.endswith("\n"):
